@@ -1,6 +1,207 @@
-//! stub: domain `fx` (filled in by its builder)
-use crate::Ints;
+//! C09/C10: FX markets (rust/fx/rates).  Mirror of coq/theories/Run/RunFX.v.
+//!   quote  = name(lhs) name(rhs) number has_settle [day number]
+//!   market = nq quote* has_base [name]
+//!   probes = np (name name)*
+//! op `new`  : market
+//!     out   : cls ; Ok -> names(currencies in index order) then n*n f64 bit patterns of rate(ci, cj)
+//! op `hist` : market probes nops (op probes)*      op = 0 nq quote* | 1 order(0|1|2)
+//!     out   : cls0 [snapshot] (cls_i snapshot)*    (ends after the first Panic or if cls0 != Ok)
+//!     snapshot = per probe: 0 (rate() returned None) | 1 number
+//! A quote whose constructor (FXRate::try_new) fails makes the enclosing constructor/op an Err.
+use crate::cal::Rd;
+use crate::dates::from_n;
+use crate::numenc::{read_name, read_number, write_name, write_number};
+use crate::{f2i, Ints};
+use rateslib::dual::{ADOrder, Number};
+use rateslib::fx::rates::{Ccy, FXRate, FXRates};
+use std::panic::{catch_unwind, AssertUnwindSafe};
 
-pub fn run(_op: &str, _a: &Ints) -> Ints {
-    vec![-1]
+struct Quote {
+    lhs: String,
+    rhs: String,
+    rate: Number,
+    settle: Option<i128>,
+}
+
+fn read_quote(r: &mut Rd) -> Quote {
+    let lhs = read_name(r);
+    let rhs = read_name(r);
+    let rate = read_number(r);
+    let settle = if r.next() == 1 { Some(r.next()) } else { None };
+    Quote { lhs, rhs, rate, settle }
+}
+fn read_quotes(r: &mut Rd) -> Vec<Quote> {
+    let n = r.next() as usize;
+    (0..n).map(|_| read_quote(r)).collect()
+}
+fn read_probes(r: &mut Rd) -> Vec<(String, String)> {
+    let n = r.next() as usize;
+    (0..n).map(|_| (read_name(r), read_name(r))).collect()
+}
+
+/// 0 = Ok, 1 = Err, 2 = Panic
+fn attempt<T, F: FnOnce() -> Result<T, ()>>(f: F) -> (i128, Option<T>) {
+    match catch_unwind(AssertUnwindSafe(f)) {
+        Ok(Ok(v)) => (0, Some(v)),
+        Ok(Err(())) => (1, None),
+        Err(_) => (2, None),
+    }
+}
+
+fn build_quotes(qs: &[Quote]) -> Result<Vec<FXRate>, ()> {
+    let mut out = Vec::new();
+    for q in qs {
+        let fxr = FXRate::try_new(&q.lhs, &q.rhs, q.rate.clone(), q.settle.map(from_n)).map_err(|_| ())?;
+        out.push(fxr);
+    }
+    Ok(out)
+}
+
+fn build_market(qs: &[Quote], base: &Option<String>) -> Result<FXRates, ()> {
+    let rates = build_quotes(qs)?;
+    let b = match base {
+        Some(s) => Some(Ccy::try_new(s).map_err(|_| ())?),
+        None => None,
+    };
+    FXRates::try_new(rates, b).map_err(|_| ())
+}
+
+/// the name a Ccy actually stores (its field is crate-private; it is serialisable)
+fn ccy_name(c: &Ccy) -> String {
+    let v: serde_json::Value = serde_json::to_value(c).expect("ccy json");
+    v["name"].as_str().expect("ccy name").to_string()
+}
+
+/// currencies in index order, recovered through the public get_ccy_index
+fn currency_order(fx: &FXRates, qs: &[Quote], base: &Option<String>) -> Vec<Ccy> {
+    let mut seen: Vec<(usize, Ccy)> = Vec::new();
+    let mut all: Vec<&String> = Vec::new();
+    if let Some(b) = base {
+        all.push(b);
+    }
+    for q in qs {
+        all.push(&q.lhs);
+        all.push(&q.rhs);
+    }
+    for s in all {
+        if let Ok(c) = Ccy::try_new(s) {
+            if let Some(i) = fx.get_ccy_index(&c) {
+                if !seen.iter().any(|(j, _)| *j == i) {
+                    seen.push((i, c));
+                }
+            }
+        }
+    }
+    seen.sort_by_key(|(i, _)| *i);
+    for (k, (i, _)) in seen.iter().enumerate() {
+        assert_eq!(k, *i, "currency indices are not 0..n");
+    }
+    seen.into_iter().map(|(_, c)| c).collect()
+}
+
+fn snapshot(fx: &FXRates, probes: &[(String, String)], out: &mut Ints) {
+    for (l, r) in probes {
+        let got = match (Ccy::try_new(l), Ccy::try_new(r)) {
+            (Ok(a), Ok(b)) => fx.rate(&a, &b),
+            _ => None,
+        };
+        match got {
+            None => out.push(0),
+            Some(n) => {
+                out.push(1);
+                write_number(&n, out);
+            }
+        }
+    }
+}
+
+fn read_market(r: &mut Rd) -> (Vec<Quote>, Option<String>) {
+    let qs = read_quotes(r);
+    let base = if r.next() == 1 { Some(read_name(r)) } else { None };
+    (qs, base)
+}
+
+fn run_new(a: &Ints) -> Ints {
+    let mut r = Rd::new(a);
+    let (qs, base) = read_market(&mut r);
+    let (cls, fx) = attempt(|| build_market(&qs, &base));
+    let mut out = vec![cls];
+    if let Some(fx) = fx {
+        let body = catch_unwind(AssertUnwindSafe(|| {
+            let mut o: Ints = Vec::new();
+            let cs = currency_order(&fx, &qs, &base);
+            o.push(cs.len() as i128);
+            for c in cs.iter() {
+                write_name(&ccy_name(c), &mut o);
+            }
+            for x in cs.iter() {
+                for y in cs.iter() {
+                    let v: f64 = f64::from(&fx.rate(x, y).expect("rate of known currencies"));
+                    o.push(f2i(v));
+                }
+            }
+            o
+        }));
+        match body {
+            Ok(mut o) => out.append(&mut o),
+            Err(_) => return vec![2],
+        }
+    }
+    out
+}
+
+fn run_hist(a: &Ints) -> Ints {
+    let mut r = Rd::new(a);
+    let (qs, base) = read_market(&mut r);
+    let probes0 = read_probes(&mut r);
+    let nops = r.next() as usize;
+    let (cls, fx) = attempt(|| build_market(&qs, &base));
+    let mut out = vec![cls];
+    let mut fx = match fx {
+        Some(f) => f,
+        None => return out,
+    };
+    if catch_unwind(AssertUnwindSafe(|| snapshot(&fx, &probes0, &mut out))).is_err() {
+        return vec![2];
+    }
+    for _ in 0..nops {
+        let kind = r.next();
+        let cls = if kind == 0 {
+            let upd = read_quotes(&mut r);
+            let fxm = &mut fx;
+            attempt(move || {
+                let rates = build_quotes(&upd)?;
+                fxm.update(rates).map_err(|_| ())
+            })
+            .0
+        } else {
+            let ad = match r.next() {
+                0 => ADOrder::Zero,
+                1 => ADOrder::One,
+                _ => ADOrder::Two,
+            };
+            let fxm = &mut fx;
+            attempt(move || fxm.set_ad_order(ad).map_err(|_| ())).0
+        };
+        let probes = read_probes(&mut r);
+        out.push(cls);
+        if cls == 2 {
+            return out;
+        }
+        let mut snap: Ints = Vec::new();
+        if catch_unwind(AssertUnwindSafe(|| snapshot(&fx, &probes, &mut snap))).is_err() {
+            out.push(2);
+            return out;
+        }
+        out.append(&mut snap);
+    }
+    out
+}
+
+pub fn run(op: &str, a: &Ints) -> Ints {
+    match op {
+        "new" => run_new(a),
+        "hist" => run_hist(a),
+        _ => panic!("unknown fx op"),
+    }
 }
